@@ -19,6 +19,7 @@ func init() {
 			{Name: "read-direction", Quick: 15000, Thorough: 500000, Run: c06Read},
 			{Name: "golden-files", Quick: 1, Thorough: 1, Run: c06Golden, Serial: true},
 			{Name: "65536-chunks-both-cookies", Quick: 2, Thorough: 6, Run: c06Huge},
+			{Name: "every-run-count", ExhaustiveN: func(t string) int { return len(runCounts(t)) }, RunIndexed: c06EveryRunCount},
 			{Name: "every-chunk-count", ExhaustiveN: func(t string) int { return len(chunkCounts(t)) }, RunIndexed: c06EveryCount},
 			{Name: "receiver-growth-x-stream-size", ExhaustiveN: growthCases, RunIndexed: func(c *Ctx, i int) { receiverGrowthCase(c, i, true) }},
 		},
@@ -125,6 +126,16 @@ func c06Read(c *Ctx) {
 	if !m.IsEmpty() {
 		c.Distinct(mix(m.Hash(), hashStr(string(wire[:minI(len(wire), 16)]))))
 	}
+	if !c06CheckRead(c, wire, m, ch) {
+		return
+	}
+	c.Sample(map[string]any{"unit": "read-direction", "case_seed": c.CaseSeed, "choices": ch, "bytes": len(wire), "set": descSet(m)})
+}
+
+// c06CheckRead decodes a spec-conformant stream through three entry points and compares the result with the set
+// the stream encodes, through the public API only (the stream may be non-canonical).
+func c06CheckRead(c *Ctx, wire []byte, m *ISet, ch encChoice) bool {
+	r := c.R
 	for _, name := range []string{"ReadFrom", "FromBuffer", "FromUnsafeBytes"} {
 		dst := roaring.New()
 		var n int64
@@ -148,15 +159,15 @@ func c06Read(c *Ctx) {
 				n, err = dst.FromUnsafeBytes(buf)
 			}
 		}) {
-			return
+			return false
 		}
 		if err != nil {
 			c.Fail("read/"+name+"/rejects-conformant-stream", "%s rejects a spec-conformant stream (choices %+v): %v", name, ch, err)
-			return
+			return false
 		}
 		if n != int64(len(wire)) {
 			c.Fail("read/"+name+"/byte-count", "%s consumed %d of %d bytes", name, n, len(wire))
-			return
+			return false
 		}
 		c.Eval(1)
 		// the set, through the public API only (the stream may be non-canonical)
@@ -197,10 +208,10 @@ func c06Read(c *Ctx) {
 		})
 		_ = buf[len(buf)-1:]
 		if c.Failed() {
-			return
+			return false
 		}
 	}
-	c.Sample(map[string]any{"unit": "read-direction", "case_seed": c.CaseSeed, "choices": ch, "bytes": len(wire), "set": descSet(m)})
+	return true
 }
 
 func c06Golden(c *Ctx) {
